@@ -549,8 +549,14 @@ def gen_family_cases(ctx: Ctx, n: int, salt: str = "families"):
 # ---- assignment families: illegal assignments on FILLED containers; empty containers assigned onto populated buckets
 
 
-def forbidden_dtypes(bucket):
-    return [d for d in DTYPES if d not in ALLOWED[bucket]]
+# numpy element types outside the model's enumeration (the model calls them DOther: in no TYPE_LIST, never stored).
+# Only ever used as operands of ASSIGNMENTS (never of an in-place addition on a filled container, whose casting rule
+# for these types is not in the generated table).
+EXOTIC = ["datetime64[s]", "timedelta64[s]", "<U3"]
+
+
+def forbidden_dtypes(bucket, exotic=False):
+    return [d for d in DTYPES if d not in ALLOWED[bucket]] + (EXOTIC if exotic else [])
 
 
 def gen_fill_ops(r, det, bucket, rows, cols, budget, dt=None):
@@ -627,6 +633,8 @@ def gen_illegal_operand(r, det, bucket, rows, cols, budget, dt=None):
     if kind == "dtype":
         dt = dt or r.choice(forbidden_dtypes(bucket))
         vc = r.choice(["pos", "pos", "neg", "allneg", "nan", "zero", "wrap"])
+        if dt in EXOTIC:
+            vc, three_d = "pos", False
         a = (gen_xr(r, rows, cols, budget, 1.0, dt=dt, vclass=vc) if three_d else
              gen_np(r, bucket, rows, cols, budget, 1.0, "right", dt, vc))
     else:
@@ -659,7 +667,7 @@ def gen_filled_reject_case(r, det, bucket, rows, cols, exhaustive_dtypes=False):
     budget = [1900]
     ops, _ = gen_fill_ops(r, det, bucket, rows, cols, budget)
     filled = None
-    bad = forbidden_dtypes(bucket)
+    bad = forbidden_dtypes(bucket, exotic=True)
     r.shuffle(bad)
     todo = bad if exhaustive_dtypes else bad[:r.choice([3, 4, 6])]
     items = [gen_illegal_operand(r, det, bucket, rows, cols, budget, dt=d) for d in todo]
@@ -751,7 +759,7 @@ def exhaustive_assign_cases():
                 three = e in ("set3d", "dassign3")
                 fill = ({"op": "set3d", "arr": x3(good, list(range(1, 2 * n + 1)))} if three else
                         {"op": "set", "arr": np_(good, list(range(1, n + 1)))})
-                for bad in forbidden_dtypes(bucket):
+                for bad in forbidden_dtypes(bucket, exotic=not three):
                     a = x3(bad, vals(bad, 2 * n)) if three else np_(bad, vals(bad, n))
                     if e in ("dassign", "dassign3"):
                         o = {"op": "dassign", "other": {"kind": bucket, "rows": rows, "cols": cols, "content": a}}
